@@ -61,6 +61,41 @@ func safeDiv(f *utils.GaloisField, a, b int) (res string) {
 	return strconv.Itoa(f.Divide(a, b))
 }
 
+// window copies d into the front of a larger array whose tail holds a sentinel and returns the slice WITH spare
+// capacity plus a check that neither the spare part nor the data itself was written (inputs of the polynomial
+// and Reed-Solomon functions belong to the caller; append on them must not reach the caller's array)
+func window(d []int) ([]int, func() bool) {
+	const sentinel = 0x5A5A5A
+	back := make([]int, len(d)+24)
+	copy(back, d)
+	for i := len(d); i < len(back); i++ {
+		back[i] = sentinel
+	}
+	orig := append([]int(nil), d...)
+	return back[:len(d)], func() bool {
+		for i := range orig {
+			if back[i] != orig[i] {
+				return false
+			}
+		}
+		for i := len(d); i < len(back); i++ {
+			if back[i] != sentinel {
+				return false
+			}
+		}
+		return true
+	}
+}
+
+func aliasMark(oks ...func() bool) string {
+	for _, ok := range oks {
+		if !ok() {
+			return " CALLER-MEMORY-WRITTEN"
+		}
+	}
+	return ""
+}
+
 func init() {
 	// gfrow pp size base a : md5 of the Multiply row, md5 of the Divide row (b = 0 prints P), Invers(a)
 	register("gfrow", func(a []string) string {
@@ -98,18 +133,20 @@ func init() {
 	// poly pp size base op p q
 	register("poly", func(a []string) string {
 		f := getField(a[0], a[1], a[2])
-		p := utils.NewGFPoly(f, ints(a[4]))
-		q := utils.NewGFPoly(f, ints(a[5]))
+		pc, pok := window(ints(a[4]))
+		qc, qok := window(ints(a[5]))
+		p := utils.NewGFPoly(f, pc)
+		q := utils.NewGFPoly(f, qc)
 		switch a[3] {
 		case "add":
-			return showInts(p.AddOrSubstract(q).Coefficients)
+			return showInts(p.AddOrSubstract(q).Coefficients) + aliasMark(pok, qok)
 		case "mul":
-			return showInts(p.Multiply(q).Coefficients)
+			return showInts(p.Multiply(q).Coefficients) + aliasMark(pok, qok)
 		case "div":
 			qu, re := p.Divide(q)
-			return showInts(qu.Coefficients) + " " + showInts(re.Coefficients)
+			return showInts(qu.Coefficients) + " " + showInts(re.Coefficients) + aliasMark(pok, qok)
 		case "mono":
-			return showInts(p.MultByMonominal(q.Coefficients[0], q.Coefficients[len(q.Coefficients)-1]).Coefficients)
+			return showInts(p.MultByMonominal(q.Coefficients[0], q.Coefficients[len(q.Coefficients)-1]).Coefficients) + aliasMark(pok, qok)
 		}
 		return "BADOP"
 	})
@@ -120,10 +157,13 @@ func init() {
 		ks := strings.Split(a[3], ";")
 		ds := strings.Split(a[4], ";")
 		var out []string
+		mark := ""
 		for i := range ks {
-			out = append(out, showInts(rs.Encode(ints(ds[i]), atoi(ks[i]))))
+			d, ok := window(ints(ds[i]))
+			out = append(out, showInts(rs.Encode(d, atoi(ks[i]))))
+			mark += aliasMark(ok)
 		}
-		return strings.Join(out, " ")
+		return strings.Join(out, " ") + mark
 	})
 	// rslib qr|dm k1;.. d1;.. : the package-level encoder (its cache carries over between case lines)
 	register("rslib", func(a []string) string {
@@ -136,9 +176,12 @@ func init() {
 		ks := strings.Split(a[1], ";")
 		ds := strings.Split(a[2], ";")
 		var out []string
+		mark := ""
 		for i := range ks {
-			out = append(out, showInts(rs.Encode(ints(ds[i]), atoi(ks[i]))))
+			d, ok := window(ints(ds[i]))
+			out = append(out, showInts(rs.Encode(d, atoi(ks[i]))))
+			mark += aliasMark(ok)
 		}
-		return strings.Join(out, " ")
+		return strings.Join(out, " ") + mark
 	})
 }
